@@ -164,6 +164,10 @@ class kFlowDecompCycles(walkmodel.AbstractWalkModelDiGraph):
         self.solve_time_start = time.perf_counter()
         
         self.optimization_options["trusted_edges_for_safety"] = self.G.get_non_zero_flow_edges(flow_attr=self.flow_attr, edges_to_ignore=self.edges_to_ignore)
+        if self.optimization_options.get("given_weights", None) is not None:
+            # Given weights are tied to the walk indices, so the walks are not interchangeable: a safe sequence
+            # is not necessarily in the walk with its index, and the edges incompatible with it cannot be forbidden there
+            self.optimization_options["optimize_with_safe_sequences_fix_zero_edges"] = False
 
         # Call the constructor of the parent class AbstractPathModelDAG
         # Build per-edge repetition upper bounds: use the edge flow when available,
